@@ -161,13 +161,19 @@ func (e *Engine) protoMergeValue(st *State, d, s Value, t types.Type) Value {
 		}
 		dv := d.(IfaceV)
 		if dv.t != nil && types.Identical(dv.t, sv.t) {
-			// same case: merge the wrapper structs field-wise (message payloads merge recursively)
+			// same case: a message-typed member is merged recursively; a scalar member of a populated
+			// source oneof REPLACES the destination's (even when it is the zero value)
 			dp, sp := dv.v.(Ptr), sv.v.(Ptr)
 			if !dp.IsNil() && !sp.IsNil() {
 				pt := sv.t.Underlying().(*types.Pointer)
-				nd := e.deepClone(st, dp, sv.t, map[int]int{}).(Ptr)
-				st.store(nd, e.protoMergeStruct(st, st.load(nd).(*StructV), st.load(sp).(*StructV), pt.Elem()))
-				return IfaceV{t: sv.t, v: nd}
+				ws := pt.Elem().Underlying().(*types.Struct)
+				if ws.NumFields() == 1 {
+					if _, isMsg := ws.Field(0).Type().Underlying().(*types.Pointer); isMsg {
+						nd := e.deepClone(st, dp, sv.t, map[int]int{}).(Ptr)
+						st.store(nd, e.protoMergeStruct(st, st.load(nd).(*StructV), st.load(sp).(*StructV), pt.Elem()))
+						return IfaceV{t: sv.t, v: nd}
+					}
+				}
 			}
 		}
 		return e.deepClone(st, sv, sv.t, map[int]int{})
